@@ -317,5 +317,45 @@ FAMILIES = [('random', family_random), ('snapshot-chain', family_snapshot_chain)
 
 def gen_history(rng, dbdir, nops):
     opts = rng.choice(opt_sets(rng, None))
-    name, fam = rng.choice(FAMILIES)
+    name, fam = rng.choice([f for f in FAMILIES if f[0] != 'repair'])
     return name, opts, fam(rng, dbdir, opts, nops)
+
+
+def family_repair(rng, dbdir, opts, nops):
+    """states whose file numbering does not follow data age (flush, deeper-level manual compaction that renumbers
+    old data, newer flushes above), live logs, tombstones; then metadata loss + repair + reopen + follow-up writes"""
+    h = Hist(rng, dbdir, opts, rng.choice([4, 10]))
+    h.open()
+    for _ in range(nops):
+        k = rng.below(12)
+        if k < 6:
+            h.write_some(rng.range(1, 3), small=rng.chance(1, 2))
+        elif k < 8:
+            h.emit('flushmem')
+        elif k < 10:
+            h.emit('compact %d * *' % rng.range(1, 4))
+        elif k < 11:
+            h.emit('compact 0 * *')
+        else:
+            h.read_all(with_snaps=False, sample=4)
+    if rng.chance(1, 2):
+        h.write_some(rng.range(1, 3), small=True)      # left in the log only
+    h.emit('close')
+    h.emit('repair %d' % rng.choice([0, 0, 1, 2, 3]))
+    h.snaps = {}
+    h.iters = {}
+    h.open()
+    h.emit('dumpall')
+    h.read_all(with_snaps=False)
+    h.iter_walk(20)
+    h.write_some(rng.range(2, 5), small=True)
+    h.read_all(with_snaps=False)
+    h.emit('flushmem')
+    h.reopen()
+    h.read_all(with_snaps=False)
+    h.iter_walk(10)
+    h.emit('close')
+    return h.lines
+
+
+FAMILIES.append(('repair', family_repair))
